@@ -16,7 +16,7 @@ def ev(st, name):
 @register
 class Connect(Contract):
     fn = "gfapy/line/common/connection.py::Connection.connect"
-    props = ("C08", "C09", "C02")
+    props = ("C08", "C09", "C02", "C05", "C03")
     fragment = "H"
     doc = ("connect(gfa): a line already connected, one that refers to its own identifier, or one whose identifier is known as a placeholder of another record type, is refused before anything is touched; the duplicate "
            "search precedes every write; a duplicate is handed to _substitute_virtual_line (virtual) or _process_not_unique (real) and nothing "
